@@ -299,12 +299,29 @@ func countPieceCrossings(ps []piece) int {
 	return x
 }
 
-// geometric proper intersection of two segments (shared endpoints and touching are not crossings)
+// geometric proper intersection of two segments (shared endpoints, touching and collinear overlap are not crossings).
+// Robust against rounding: bounding boxes must overlap, and an orientation determinant only counts as non-zero when it
+// exceeds 1e-9 of its own scale. (The first version compared raw signs: two COLLINEAR, disjoint tree edges in different
+// band gaps - determinants 882-882 and 1722-1722 up to rounding - were reported as a crossing in the thorough tier.)
 func segsCross(a1, a2, b1, b2 [2]float64) bool {
-	o := func(p, q, r [2]float64) float64 { return (q[0]-p[0])*(r[1]-p[1]) - (q[1]-p[1])*(r[0]-p[0]) }
+	if math.Max(a1[0], a2[0]) < math.Min(b1[0], b2[0]) || math.Max(b1[0], b2[0]) < math.Min(a1[0], a2[0]) ||
+		math.Max(a1[1], a2[1]) < math.Min(b1[1], b2[1]) || math.Max(b1[1], b2[1]) < math.Min(a1[1], a2[1]) {
+		return false
+	}
+	o := func(p, q, r [2]float64) int {
+		u, v := (q[0]-p[0])*(r[1]-p[1]), (q[1]-p[1])*(r[0]-p[0])
+		d := u - v
+		if math.Abs(d) <= 1e-9*(math.Abs(u)+math.Abs(v)) {
+			return 0
+		}
+		if d > 0 {
+			return 1
+		}
+		return -1
+	}
 	d1, d2 := o(a1, a2, b1), o(a1, a2, b2)
 	d3, d4 := o(b1, b2, a1), o(b1, b2, a2)
-	return ((d1 > 0 && d2 < 0) || (d1 < 0 && d2 > 0)) && ((d3 > 0 && d4 < 0) || (d3 < 0 && d4 > 0))
+	return d1*d2 < 0 && d3*d4 < 0
 }
 
 func countGeometricCrossings(l graph.Layout) int {
